@@ -76,15 +76,19 @@ def valueOf (pairs : List (Var × Bytes)) (v : Var) : Option Value :=
     | some last =>
       if integer.contains v then (M.parseI64? (M.bytesToAsciiStr last)).map .i else some (.s last)
 
+/-- the (variable, value) pairs of the accepted lines, in line order -/
+def okPairs (cls : List (Bytes × LineClass)) : List (Var × Bytes) :=
+  cls.filterMap fun
+    | (_, .ok v val) => some (v, val)
+    | _ => none
+
 /-- C08: accept exactly complete well-formed entries, else say why -/
 def parse (t : Bytes) : Except SumErr (Var → Option Value) :=
   let cls := (textLines t).map fun l => (l, classify l)
   match firstFault cls with
   | some e => .error e
   | none =>
-    let pairs := cls.filterMap fun
-      | (_, .ok v val) => some (v, val)
-      | _ => none
+    let pairs := okPairs cls
     let s := valueOf pairs
     match required.find? (fun v => (s v).isNone) with
     | some v => .error (.incomplete v)
